@@ -761,8 +761,10 @@ func (h *vcHist) restart() {
 		h.e.nativeClose()
 	}
 	h.e.lastRestored = ""
+	println("R1")
 	h.e.openStore()
 	got, idx, any := h.checkNewest("restart", 0)
+	println("R2")
 	if !any {
 		got, idx = vcState{}, 0
 	}
@@ -770,13 +772,16 @@ func (h *vcHist) restart() {
 	h.e.seq++
 	h.e.resetDB(vcState{})
 	h.e.attachDB()
+	println("R3")
 	if any {
 		// ... into which raft restores the newest snapshot: SnapshotStore.List, Open, FSM.Restore
 		metas, err := h.e.snaps.List()
 		verifAssert("C04-restart-list-ok", err == nil && len(metas) == 1)
 		_, rc, err := h.e.snaps.Open(metas[0].ID)
+		println("R4")
 		verifAssert("C04-restart-open-ok", err == nil)
 		rerr := NewFSM(h.e.s).Restore(rc)
+		println("R5")
 		rc.Close()
 		verifAssert("C04-restart-restore-ok", rerr == nil)
 		h.e.lin = got.lin
